@@ -31,12 +31,29 @@ def load_prop(prop):
     return importlib.import_module("vsim.props." + prop.lower())
 
 
+def claim(mod, out):
+    """If the first failing rule of a run belongs to another property but a rule that failed in the same tick belongs
+    to this one, this property's rule becomes the reported one."""
+    v = out.get("violation")
+    if v and not mod.claims(v["rule"]):
+        for a in (v.get("detail") or {}).get("also", []):
+            if mod.claims(a["rule"]):
+                out["violation"] = {"rule": a["rule"], "tick": v.get("tick"),
+                                    "detail": dict(a["detail"], first_failing_rule=v["rule"])}
+                break
+    return out
+
+
+def executor_of(mod):
+    return lambda scn, rng=None: claim(mod, mod.execute(scn, rng))
+
+
 def one_run(mod, family, seed, idx, tier):
     """Generate + execute run idx of a family.  Returns (scenario, outcome)."""
     rng = sub_rng(seed, mod.PROP, family, idx)
     scn = mod.make(family, rng, tier)
     scn["_family"] = family
-    out = mod.execute(scn, rng)
+    out = claim(mod, mod.execute(scn, rng))
     return scn, out
 
 
@@ -202,12 +219,12 @@ def run_check(prop, tier):
             if scn is not None:
                 scn = mod.prepare_replay(scn, viol) if hasattr(mod, "prepare_replay") else scn
                 try:
-                    chk = mod.execute(copy.deepcopy(scn), None)
+                    chk = executor_of(mod)(copy.deepcopy(scn), None)
                     if chk.get("violation") and chk["violation"]["rule"] == rule:
-                        scn, used = shrinker.shrink(scn, rule, lambda s: mod.execute(s, None),
+                        scn, used = shrinker.shrink(scn, rule, lambda s: executor_of(mod)(s, None),
                                                     budget=getattr(mod, "SHRINK_BUDGET", 300),
                                                     extra_candidates=getattr(mod, "shrink_candidates", None))
-                        viol = mod.execute(copy.deepcopy(scn), None)["violation"]
+                        viol = executor_of(mod)(copy.deepcopy(scn), None)["violation"]
                     else:
                         harness.append("in-process replay of %s/%d did not reproduce %s (got %s)" % (
                             v["family"], v["idx"], rule, chk.get("violation")))
@@ -303,7 +320,7 @@ def replay(path, quiet=False):
     if rp.get("scenario") is None:
         print("replay file has no scenario (hang report)")
         return 2
-    out = mod.execute(copy.deepcopy(rp["scenario"]), None)
+    out = executor_of(mod)(copy.deepcopy(rp["scenario"]), None)
     v = out.get("violation")
     if v and v["rule"] == rp["rule"]:
         print("REPRODUCED rule=%s tick=%s" % (v["rule"], v.get("tick")))
